@@ -29,6 +29,7 @@ var allBuiltins = []builtin{
 var chaosValues = []string{
 	`1`, `0`, `-1`, `0.5`, `2`, `"a"`, `""`, `"1"`, `true`, `null`, `nothing`, `[]`, `[1,2]`, `["a","b"]`, `[[1]]`, `[[],[1,[2]]]`, `{}`, `{"a":1}`,
 	`$sum`, `function($x){$x}`, `function($x,$y){$x}`, `function($a,$b,$c,$d){$a}`, `$replace`, `$pad(?,2)`, `/a/`, `/a/("a")`, `$$`, `a`, `a.b`,
+	`[{"b":1},{"a":1},{"a":"x"}]`, // members of different kinds behind an element that lacks the member (sort keys, aggregates)
 }
 
 // chaosSmall is the sub-alphabet for wide products.
